@@ -133,6 +133,30 @@ func init() {
 		}
 		return nil
 	}
+	intrinsics[H("vGuardMap")] = func(in *Interp, fr *frame, args []Value) Value {
+		m, _ := args[0].(Iface).V.(*Map)
+		mu, _ := args[1].(Iface).V.(*Value)
+		if m != nil && mu != nil {
+			in.ghost.mapGuards[m] = mu
+		}
+		return nil
+	}
+	intrinsics[H("vShareGlobals")] = func(in *Interp, fr *frame, args []Value) Value {
+		// every package-level variable materialised so far (and what it reaches) becomes shared
+		cells := map[*Value]bool{}
+		maps := map[*Map]bool{}
+		for _, p := range in.globals {
+			reachable(p, cells, maps, 0)
+		}
+		for c := range cells {
+			in.ghost.shared[c] = true
+		}
+		for m := range maps {
+			in.ghost.sharedMaps[m] = true
+		}
+		in.ghost.effMon = true
+		return nil
+	}
 	intrinsics[H("vUnshare")] = func(in *Interp, fr *frame, args []Value) Value {
 		in.ghost.effMon = false
 		return nil
